@@ -651,3 +651,51 @@ def s_attribute_text(_ctx):
 
 SCENARIOS.append(Scenario("C13.export.attribute_text", s_attribute_text, [(REL, "_Exporter._translate_attributes"), (REL, "_attribute_value"), (REL, "_to_str")],
                           kind="evaluation"))
+
+
+def s_translate_if(_ctx):
+    """_Exporter._translate_if (real source, real NodeProto): `if <cond>:` + the then-branch body + one assignment per If
+    output from the then-branch's output at the same position, `else:` + the same for the else-branch — whichever order the
+    two graph attributes are stored in — so that after the statement every If output holds the selected branch's value."""
+    from onnx import helper, TensorProto
+    from contracts.c17_opsets import Agg
+    from pyvc.core import Ctx
+    exp = _exp()
+    agg = Agg()
+    cl = "C13: 'every tensor-typed model over standard-domain operators with If and Loop bodies' round-trips"
+    n = 0
+    for else_first in (False, True):
+        for n_out in (1, 2):
+            for cond_inlined in (False, True):
+                n += 1
+                ctx = Ctx([], {"solver_s": 0.0, "queries": 0})
+                I = Interp(ctx)
+                ex = exp._Exporter(rename=False, use_operators=False, inline_const=True, skip_initializers=False)
+                ex._name_remappings.append({})
+                if cond_inlined:
+                    ex.constants["c"] = "True"
+
+                def vi_(nm):
+                    return helper.make_tensor_value_info(nm, TensorProto.FLOAT, [2])
+                tg = helper.make_graph([helper.make_node("Relu", ["x"], [f"t{i}"]) for i in range(n_out)], "then", [], [vi_(f"t{i}") for i in range(n_out)])
+                eg = helper.make_graph([helper.make_node("Neg", ["x"], [f"e{i}"]) for i in range(n_out)], "else", [], [vi_(f"e{i}") for i in range(n_out)])
+                kw = [("else_branch", eg), ("then_branch", tg)] if else_first else [("then_branch", tg), ("else_branch", eg)]
+                node = helper.make_node("If", ["c"], [f"y{i}" for i in range(n_out)])
+                for k, g in kw:
+                    node.attribute.append(helper.make_attribute(k, g))
+                I.models[exp._Exporter._translate_graph_body] = lambda interp, slf, g, opsets, indent=0: "    " * indent + f"<{g.name} body>"
+                case = f"{'else' if else_first else 'then'} attribute first, {n_out} output(s), condition {'inlined' if cond_inlined else 'a value'}"
+                try:
+                    text = I.run_closure(I.closure_of(exp._Exporter._translate_if), [ex, node, {"": 18}], {"indent": 1})
+                    lines = text.splitlines()
+                    want = ["    if " + ("True" if cond_inlined else "c") + ":", "        <then body>"] + [f"        y{i} = t{i}" for i in range(n_out)] + \
+                           ["    else:", "        <else body>"] + [f"        y{i} = e{i}" for i in range(n_out)]
+                    ok = lines == want
+                    detail = f"{case}: emitted {lines}, expected {want}"
+                except Exception as e:  # noqa: BLE001
+                    ok, detail = False, f"{case}: {type(e).__name__}: {e}"
+                agg.ob("C13.export.if.both_branches_assign_every_output_from_the_branch_output_at_the_same_position", ok, detail, cl, case=case)
+    return {"obligations": agg.obs, "paths": n, "covered": [f"if_cases={n}"], "notes": [], "functions": []}
+
+
+SCENARIOS.append(Scenario("C13.export.if", s_translate_if, [(REL, "_Exporter._translate_if"), (REL, "_Exporter._emit_assign")], kind="evaluation"))
